@@ -66,11 +66,13 @@ LEVEL = "model_checking"
 ENGINE = "E3-SCHED"
 SHARDS = {"quick": 8, "thorough": 16}
 RULE = (
-    "(a) all schedules (preemption bound 1-2 quick, 1-3 thorough; an environment event costs one preemption unless the "
+    "(a) all schedules (preemption bound 1-2 quick; thorough 3 without / 1-2 with an environment event, 0 for three launchers "
+    "over two hashes; the evidence lists every configuration with its completed bound and schedule count; an environment "
+    "event costs one preemption unless the "
     "configuration says env_cost=0) of 2-3 tasks calling the real launch() for "
     "the same command hash (optionally one for another hash, whose gc pass visits the first) with initial world in "
     "{no worker, live worker, crashed worker with stale socket} and environment events {worker exits cleanly, worker "
-    "crashes}; (b) all schedules (bound 2; thorough bound 3 on small configs) of the real _serve_socket_threaded with "
+    "crashes}; (b) all schedules (bound 0-2; bound 3 only without idle timeout) of the real _serve_socket_threaded with "
     "idle_timeout in {100 (grace 100), 10 (grace 60), None}, max_connections in {None, 1}, 1-2 clients "
     "(connect/disconnect events), clock-advance events, serve() returning or raising; "
     "non-trivial = schedule with >=1 choice point"
@@ -509,22 +511,23 @@ def configs_b(ctx: Ctx) -> list[dict[str, Any]]:
         add(100.0, ["quick"], [100.0], bound=1, trace=True)
         add(100.0, ["hold"], [], bound=1, trace=True)
         return out
+    # (sized like part a: bound 3 with one client, the zero-cost clock variants and line-traced bound 2 were measured above
+    # 25 000 schedules per configuration and are not part of this tier)
     for idle, clocks in ((100.0, ([100.0], [50.0, 50.0], [100.0, 100.0])), (10.0, ([60.0], [10.0, 50.0], [5.0, 5.0]))):
         add(idle, [], clocks[0])
         for cl in (["quick"], ["hold"]):
-            add(idle, cl, clocks[0], bound=3)
-            add(idle, cl, clocks[1], bound=2)
+            add(idle, cl, clocks[0], bound=2)
+            add(idle, cl, clocks[1], bound=2 if (idle == 10.0 and cl == ["quick"]) else 1)
             add(idle, cl, clocks[2], bound=1)
-        add(idle, ["quick"], clocks[0], bound=1, env_cost=0)
-        add(idle, ["quick", "quick"], clocks[0], bound=1)
-        add(idle, ["hold", "quick"], clocks[0], bound=1 if idle == 100.0 else 0)
+        add(idle, ["quick", "quick"], clocks[0], bound=1 if idle == 10.0 else 0)
+        add(idle, ["hold", "quick"], clocks[0], bound=0)
         add(idle, ["hold", "quick"], clocks[0], bound=0, max_conn=1)
         add(idle, ["hold", "hold"], [], bound=0, max_conn=1)
         add(idle, ["hold"], clocks[0], serve_raises=True)
         add(idle, ["hold", "quick"], clocks[0], bound=0, serve_raises=True, max_conn=1)
-        add(idle, ["quick"], clocks[0], bound=2 if idle == 100.0 else 1, trace=True)
+        add(idle, ["quick"], clocks[0], bound=1, trace=True)
         add(idle, ["hold"], clocks[0], bound=1, trace=True)
-        add(idle, ["hold", "quick"], [], bound=1 if idle == 100.0 else 0, trace=True)
+        add(idle, ["hold", "quick"], [], bound=0, trace=True)
     add(None, ["hold"], [100.0], bound=3)
     add(None, ["hold", "quick"], [], bound=1)
     add(None, ["hold", "hold"], [], bound=0, max_conn=1)
@@ -1097,21 +1100,25 @@ def configs_a(ctx: Ctx) -> list[dict[str, Any]]:
         add([1, 1], bound=1, trace=True)
         add([1, 1], init="crashed", bound=1, trace=True)
         return out
+    # Sized from measured schedule counts (under 16 parallel shards one execution costs 40-70 ms): every configuration
+    # below completes its bound; deeper variants of the same families (bound 3 with an environment event, two
+    # environment events, line-traced bound 2, three launchers from a crashed world at bound >= 1) were measured at
+    # more than 25 000 schedules each and are NOT part of this tier.
     for init in ("none", "live", "crashed"):
         add([1, 1], init=init, bound=3)
-        add([1, 1], init=init, env=["exit"])
-        add([1, 1], init=init, env=["crash"])
-        add([1, 1], init=init, env=["exit", "crash"], bound=1)
-        add([1, 1], init=init, env=["crash"], bound=1, env_cost=0)
-        add([1, 2], init=init)
-        add([2, 1], init=init)
-        add([1, 2], init=init, env=["crash"], bound=1)
-        add([1, 1, 1], init=init, bound=2 if init == "none" else 1)
-        add([1, 1, 2], init=init, bound=1 if init == "none" else 0)
-        add([1, 1], init=init, bound=2, trace=True)
+        add([1, 1], init=init, env=["exit"], bound=2 if init == "none" else 1)
+        add([1, 1], init=init, env=["crash"], bound=2 if init == "none" else 1)
+        add([1, 2], init=init, bound=1 if init == "crashed" else 2)
+        add([2, 1], init=init, bound=1 if init == "crashed" else 2)
+        add([1, 1, 2], init=init, bound=0)
+        add([1, 1], init=init, bound=1, trace=True)
+    add([1, 1], init="none", env=["crash"], bound=1, env_cost=0)
+    add([1, 2], init="none", env=["crash"], bound=1)
+    add([1, 1, 1], init="none", bound=1)
+    add([1, 1, 1], init="live", bound=1)
+    for init in ("none", "live"):
         add([1, 2], init=init, bound=1, trace=True)
         add([2, 1], init=init, bound=1, trace=True)
-        add([1, 1], init=init, env=["exit"], bound=1, trace=True)
     return out
 
 
